@@ -20,4 +20,13 @@ def i64and (a b : Int) : Int := wrap64 (Int.ofNat (bits64 a &&& bits64 b))
 /-- Go `a / b` on `int`, `b ≠ 0`: quotient truncated toward zero (wraps for `minInt / -1`) -/
 def i64quo (a b : Int) : Int := wrap64 (Int.tdiv a b)
 
+/-- Go `a - b` on `uint64` (values in `[0, 2^64)`) -/
+def u64sub (a b : Int) : Int := (a - b) % 18446744073709551616
+
+/-- Go `a & b` on `uint64` -/
+def u64and (a b : Int) : Int := Int.ofNat (bits64 a &&& bits64 b)
+
+/-- Go `a / b` on `uint64`, `b ≠ 0` -/
+def u64quo (a b : Int) : Int := (Int.tdiv a b) % 18446744073709551616
+
 end GV.Gen.Verifier
